@@ -297,6 +297,19 @@ theorem accessory_itself_is_no_controller (c : Nat) (db : Store) (st : St) (k : 
 
 -- every exchange has its own accessory key ------------------------------------------------------------------------------
 
+/-- A start request whose 32-byte key is a point of small order (the shared secret of X25519 is then all zero, whatever
+    the accessory's key pair of this exchange is — the session keys would be the same for every session of that controller,
+    with the frame counters starting at zero each time: a frame recorded in one session would be a frame of the next) is
+    refused: no exchange is opened, nothing is installed, and a finish that follows is answered like a finish without a
+    start. F61 repair. -/
+theorem low_order_start_refused (c : Nat) (db : Store) (st : St) :
+    (step true c db st (.v1 .lowOrder)).1.step = .waiting ∧
+    (step true c db st (.v1 .lowOrder)).1.installed = st.installed ∧
+    (step true c db st (.v1 .lowOrder)).1.epoch = st.epoch ∧
+    (step true c db st (.v1 .lowOrder)).2 = .http500 := by
+  simp only [step, stepR]
+  split <;> simp
+
 /-- A stored long-term key of a wrong size (anything but 32 bytes; `/pairings` add stores what it is given): whatever
     the finish carries — any signature, of any length —, it is answered with an error and verifies nothing. (A signature
     check that panics on such a key must not turn into "verified" either: seeded change C03-r5m1 recovered the panic in the
